@@ -92,3 +92,8 @@ Definition pda_inter_model_diff {Q G} `{EqDec Q} `{EqDec G} (P : pda Q G) (A : e
 
 (* ---- C18 ---- *)
 From PFL Require Export Model.Feat.
+
+(* ---- C15: the proved models of the derivation listings against the listings pyformlang returns ---- *)
+From PFL Require Export Model.Deriv.
+Definition listings_same {Vr} `{EqDec Vr} (t : tree Vr) (l r : list (list (symb Vr))) : bool * bool :=
+  (eqb (lm t) l, eqb (rm t) r).
